@@ -140,7 +140,10 @@ def known_checks(ctx):
                     ctx.known_finding(kf['id'], kf['text'])
             elif w.get('kind') == 'docstring':
                 src = open(os.path.join(common.REPO, w['file']), encoding='utf-8').read()
-                if w['text'] in src:
+                bh = w['behaviour']
+                blk = {b.name: b for b in c08_blocks.catalogue(py4hw, True)}[bh['block']]
+                got = run_impl(py4hw, blk, bh['config'], [bh['inputs']])[0]
+                if w['text'] in src and got == bh['observed']:
                     ctx.known_finding(kf['id'], kf['text'])
         except Exception as ex:
             ctx.log('known finding %s: witness could not be replayed (%s)' % (kf['id'], ex))
